@@ -305,6 +305,50 @@ theorem reads_invisible (ops : List (Env × COp)) (fs : FS) (h : Healthy cfg cac
   rw [a2, b2, a1, b1, s1, s2]
   exact ⟨rfl, rfl⟩
 
+/-- The key an index operation names. -/
+def iopKey : IOp → Bytes
+  | .ins key _ => key
+  | .del key => key
+  | .look key => key
+
+/-- **Index operations on different keys commute** in the abstract index: same final map, and each
+answers what it answers without the other. -/
+theorem specStep_comm (env1 env2 : Env) (m : AbsIndex) (op1 op2 : IOp) (h : iopKey op1 ≠ iopKey op2) :
+    (specStep env2 (specStep env1 m op1).1 op2).1 = (specStep env1 (specStep env2 m op2).1 op1).1 ∧
+    (specStep env2 (specStep env1 m op1).1 op2).2 = (specStep env2 m op2).2 ∧
+    (specStep env1 (specStep env2 m op2).1 op1).2 = (specStep env1 m op1).2 := by
+  have h' : iopKey op2 ≠ iopKey op1 := fun e => h e.symm
+  cases op1 <;> cases op2 <;> simp only [iopKey] at h h' <;>
+    refine ⟨?_, ?_, ?_⟩ <;> simp only [specStep] <;>
+    first
+      | rfl
+      | (funext k; by_cases e1 : k = _ <;> by_cases e2 : k = _ <;> simp_all)
+      | simp [h, h']
+      | (funext k; split <;> split <;> simp_all)
+
+/-- **… and so do the index programs on every healthy cache**: `insert` / `remove` / lookup of two
+different keys, run in either order (each with its own clock answer), give each call the same
+answer and leave the same abstract cache — an operation on one key can neither disturb nor be
+disturbed by an operation on another, whichever comes first. -/
+theorem index_ops_commute (env1 env2 : Env) (op1 op2 : IOp) (fs : FS) (h : Healthy cfg cache fs)
+    (hl : HexLen cfg) (w1 : OpWF cfg op1) (w2 : OpWF cfg op2) (hk : iopKey op1 ≠ iopKey op2) :
+    ∃ a b, (cRunOps cfg cache [(env1, .index op1), (env2, .index op2)] fs).1 = [a, b] ∧
+      (cRunOps cfg cache [(env2, .index op2), (env1, .index op1)] fs).1 = [b, a] ∧
+      absCache cfg cache (cRunOps cfg cache [(env1, .index op1), (env2, .index op2)] fs).2 =
+        absCache cfg cache (cRunOps cfg cache [(env2, .index op2), (env1, .index op1)] fs).2 := by
+  have wf12 : ∀ x ∈ [(env1, COp.index op1), (env2, COp.index op2)], x.2.WF cfg := by
+    intro x hx; simp at hx; rcases hx with rfl | rfl; exact w1; exact w2
+  have wf21 : ∀ x ∈ [(env2, COp.index op2), (env1, COp.index op1)], x.2.WF cfg := by
+    intro x hx; simp at hx; rcases hx with rfl | rfl; exact w2; exact w1
+  obtain ⟨a1, b1, _⟩ := cache_refines_map cfg cache _ fs h hl wf12
+  obtain ⟨a2, b2, _⟩ := cache_refines_map cfg cache _ fs h hl wf21
+  obtain ⟨c1, c2, c3⟩ := specStep_comm env1 env2 (absCache cfg cache fs).index op1 op2 hk
+  refine ⟨.index (specStep env1 (absCache cfg cache fs).index op1).2,
+          .index (specStep env2 (absCache cfg cache fs).index op2).2, ?_, ?_, ?_⟩
+  · rw [a1]; simp only [cSpecRun, cSpecStep]; rw [c2]
+  · rw [a2]; simp only [cSpecRun, cSpecStep]; rw [c3]
+  · rw [b1, b2]; simp only [cSpecRun, cSpecStep]; rw [c1]
+
 namespace AxiomCheckSpecLaws
 open Cacache.SpecLaws
 #print axioms removeFullySpec_idem
@@ -315,6 +359,8 @@ open Cacache.SpecLaws
 #print axioms representation_independent
 #print axioms representation_independent_ext
 #print axioms reads_invisible
+#print axioms specStep_comm
+#print axioms index_ops_commute
 end AxiomCheckSpecLaws
 
 end Cacache.SpecLaws
